@@ -141,16 +141,16 @@ func LockSetString(hs []Held) string {
 type ValKind int
 
 const (
-	VUnknown ValKind = iota
-	VBool            // constant bool
-	VInt             // constant small int (atomic status words, literal ints)
-	VNil             // the nil literal
-	VFuncLit         // a function literal (closure)
-	VBroadcast       // the broadcast func of a HoldLock section
-	VGetWaitCh       // the getWaitCh func of a HoldLock section
-	VMethodVal       // a method value x.M
-	VFunc            // a declared function used as a value
-	VAlias           // an alias of a caller-side variable (parameter bound to an identifier)
+	VUnknown   ValKind = iota
+	VBool              // constant bool
+	VInt               // constant small int (atomic status words, literal ints)
+	VNil               // the nil literal
+	VFuncLit           // a function literal (closure)
+	VBroadcast         // the broadcast func of a HoldLock section
+	VGetWaitCh         // the getWaitCh func of a HoldLock section
+	VMethodVal         // a method value x.M
+	VFunc              // a declared function used as a value
+	VAlias             // an alias of a caller-side variable (parameter bound to an identifier)
 )
 
 // Value is an abstract value.
@@ -274,28 +274,28 @@ func (f *Frame) Body() *ast.BlockStmt {
 type Kind int
 
 const (
-	KBranch    Kind = iota // an atom of a branch condition was decided
-	KCall                  // a call that was not inlined (opaque)
-	KEnter                 // entering an inlined function or literal
-	KExit                  // leaving an inlined function or literal
-	KAssign                // one lhs := rhs pair (Rhs may be nil for var decl / multi-value)
-	KIncDec                // x++ / x--
-	KRecv                  // <-ch (blocking unless InSelectWithDefault)
-	KSend                  // ch <- v
-	KClose                 // close(ch)
-	KSelect                // a select arm was chosen (Arm = index, -1 default)
-	KGo                    // go statement
-	KDefer                 // defer registration
-	KReturn                // return statement (Results)
-	KAcquire               // lock acquired (Lock/RLock/TryLock success/HoldLock entry)
-	KRelease               // lock released
-	KBroadcast             // broadcast() of a section
-	KGetWaitCh             // getWaitCh() of a section
-	KPanic                 // panic(...)
-	KAccess                // read or write of a variable (only with EmitAccess)
-	KLoop                  // loop iteration boundary (Int = iteration number)
-	KFuncLitVal            // a function literal was evaluated as a value (escapes unless called)
-	KRange                 // range loop head (X = ranged expression)
+	KBranch     Kind = iota // an atom of a branch condition was decided
+	KCall                   // a call that was not inlined (opaque)
+	KEnter                  // entering an inlined function or literal
+	KExit                   // leaving an inlined function or literal
+	KAssign                 // one lhs := rhs pair (Rhs may be nil for var decl / multi-value)
+	KIncDec                 // x++ / x--
+	KRecv                   // <-ch (blocking unless InSelectWithDefault)
+	KSend                   // ch <- v
+	KClose                  // close(ch)
+	KSelect                 // a select arm was chosen (Arm = index, -1 default)
+	KGo                     // go statement
+	KDefer                  // defer registration
+	KReturn                 // return statement (Results)
+	KAcquire                // lock acquired (Lock/RLock/TryLock success/HoldLock entry)
+	KRelease                // lock released
+	KBroadcast              // broadcast() of a section
+	KGetWaitCh              // getWaitCh() of a section
+	KPanic                  // panic(...)
+	KAccess                 // read or write of a variable (only with EmitAccess)
+	KLoop                   // loop iteration boundary (Int = iteration number)
+	KFuncLitVal             // a function literal was evaluated as a value (escapes unless called)
+	KRange                  // range loop head (X = ranged expression)
 )
 
 var kindNames = [...]string{"branch", "call", "enter", "exit", "assign", "incdec", "recv", "send", "close", "select",
@@ -320,10 +320,11 @@ type Event struct {
 	CondKey string // canonical atom key (positive form); CondVal already accounts for normalisation
 
 	// KCall / KGo / KDefer / KEnter
-	Call   *ast.CallExpr
-	Callee *types.Func // resolved static callee (origin), nil if dynamic
-	FunVal Value       // value of the called expression when known (funclit / method value / broadcast …)
-	Inner  *Frame      // KEnter/KExit: the frame entered/left
+	Call    *ast.CallExpr
+	Callee  *types.Func // resolved static callee (origin), nil if dynamic
+	FunVal  Value       // value of the called expression when known (funclit / method value / broadcast …)
+	Inner   *Frame      // KEnter/KExit: the frame entered/left
+	ArgVals []Value     // KCall/KGo: abstract values of the arguments
 
 	// KAssign / KIncDec
 	Lhs    ast.Expr
